@@ -128,6 +128,9 @@ type Sim struct {
 
 	streamsSeen []*Stream
 	dialCancel  [2]context.CancelFunc
+	inWrite     map[*Stream]int // harness writes in progress (blocked inside WriteSCTP)
+	quiescentHooks []func()
+	wroteBytes  map[*Stream]int // bytes accepted by harness writes, per stream
 	InvOn       bool // evaluate white-box invariants at quiescent points
 }
 
@@ -331,7 +334,7 @@ func runExec(t *testing.T, sc *Scenario, prefix []int, sigs []string, keepSigs b
 			}
 		}()
 		synctest.Test(t, func(t *testing.T) {
-			m := &Sim{T: t, Rand: &detRand{state: 12345}}
+			m := &Sim{T: t, Rand: &detRand{state: 12345}, inWrite: map[*Stream]int{}, wroteBytes: map[*Stream]int{}}
 			globalMathRandomGenerator = m.Rand
 			vsched.Namer = m.nameLock
 			var start time.Time
